@@ -1650,10 +1650,15 @@ fn assign_target(ip: Rc<Interp>, t: Tgt, val: V, env: Env) -> Fut {
                         match &val {
                             V::Tuple(t) if t.len() == 2 => {
                                 let (nk, nv) = (t[0].clone(), t[1].clone());
-                                if e.iter().enumerate().any(|(j, (k, _))| j != i && values_equal_plain(k, &nk)) {
-                                    return Err(Ctl::Unmodelled("index-assign with a key that exists elsewhere".into()));
+                                // the entry at i is replaced; if the new key already exists elsewhere,
+                                // that entry moves into position i (clamped to the end) with the new
+                                // value, all other entries keep their relative order
+                                e.remove(i);
+                                if let Some(j) = e.iter().position(|(k, _)| values_equal_plain(k, &nk)) {
+                                    e.remove(j);
                                 }
-                                e[i] = (nk, nv);
+                                let at = i.min(e.len());
+                                e.insert(at, (nk, nv));
                                 Ok(V::Null)
                             }
                             _ => rt("map index assignment needs a (key, value) tuple"),
